@@ -99,6 +99,15 @@ def run_case(case, ctx):
 					gzs.append((plan.get('gz_members', 1) if i % 2 == 0 else True) if gz else False)
 				paths = H.write_genomes(os.path.join(pd, 'base'), [W.query_contigs[q] for q in order], rel, gz=gzs)
 				labels = [H.expected_label(p) for p in rel]
+				if plan.get('symlinks'):
+					# each input is a symbolic link (as staged by workflow managers) to a file with an unrelated name
+					store = os.path.join(pd, 'store')
+					os.makedirs(store, exist_ok=True)
+					for i, pth in enumerate(paths):
+						target = os.path.join(store, f'dataset_{i:04d}.dat')
+						os.replace(pth, target)
+						os.symlink(target if i % 2 else os.path.relpath(target, os.path.dirname(pth)), pth)
+					classes.add('symlinked_inputs')
 				if chan == 'files':
 					args += paths
 				else:
@@ -190,6 +199,7 @@ def gen_case(draw, tier):
 			'int_ids': draw(st.booleans()),
 			'gz_members': draw(st.sampled_from([1, 2, 3])),
 			'list_style': draw(st.integers(0, 4)),
+			'symlinks': draw(st.sampled_from([False, False, True])),
 			'db_via_env': draw(st.sampled_from([False, False, True])),
 			'chunksize': draw(st.sampled_from([1000, None, 1, 2, 'n+1'])),
 		})
